@@ -27,7 +27,13 @@ func runC02(env *lib.Env, rep *lib.Report) {
 	}
 	var cfgs []histCfg
 	for _, seed := range seeds {
-		cfgs = append(cfgs, histCfg{Name: "real/" + seed, Opt: worldOpt{}, Seed: seed, Alpha: alpha, Depth: d,
+		a := alpha
+		if seed == "t1x12+t2x1" {
+			// CREATE TABLE takes row ids and LSNs without writing a log record: after it the header is
+			// ahead of everything the log mentions
+			a.OnlyCreate = []string{"t3"}
+		}
+		cfgs = append(cfgs, histCfg{Name: "real/" + seed, Opt: worldOpt{}, Seed: seed, Alpha: a, Depth: d,
 			TickChoice: true, Reopen: true, Crash: true, FinalCrash: true})
 	}
 	// reduced capacity: deeper trees, more splits per statement
